@@ -246,9 +246,9 @@ class Hist:
             self.dirty = True
 
     def hash_ok(self):
-        # K5: a hash/proof query on the dirty working tree while a non-default initial version is
-        # pending memoises hashes for version 1; generation avoids exactly that trigger.
-        return not (self.dirty and self.base == 0 and self.iv_pending not in (None, 1))
+        # (K5, repaired: a hash/proof query on the dirty working tree while a non-default initial version is
+        # pending memoised hashes for version 1; generation avoided that trigger until the repair)
+        return True
 
     def read_ops(self, n=None):
         r, p = self.r, self.p
